@@ -29,6 +29,11 @@ def pivot():
     S.append(EnumSpec("Repeat", [
         U("A", props=[[("size", "large")], [("size", 42), ("size", True)]]), U("B", props=[[("size", 1)], [("size", "s")]]),
     ], derives=d, note="one key declared with all three types on one variant, split over groups"))
+    S.append(EnumSpec("StrOnly", [U("Room", props=[[("no", "201"), ("open", "true"), ("neg", "-5")]]), U("Hall", props=[[("no", "x")]]), U("None_")],
+                      derives=d, note="ONLY string literals in the whole enum, some of which read like integers / booleans"))
+    S.append(EnumSpec("IntOnly", [U("A", props=[[("n", 1)]]), U("B", props=[[("n", 0)], [("m", -1)]])], derives=d, note="only integer literals in the whole enum"))
+    S.append(EnumSpec("DisLeak", [U("H", disabled=True, props=[[("depth", 7), ("tag", "h"), ("on", True)]]), U("Circle"), U("Sq", props=[[("tag", "s")]])],
+                      derives=d, note="a disabled variant WITH props directly before an enabled variant WITHOUT props"))
     S.append(EnumSpec("Kw", [
         U("A", props=[[("type", "t"), ("fn", 1), ("match", True)]]),
         U("B", props=[[("r#type", "raw")]] if False else [[("self", "s")], [("type", 2)]]),
